@@ -1035,7 +1035,24 @@ def full_case(case, pools):
     return c
 
 
-def process(chk, outs, verdicts, report=True, pools=None):
+def difference_tag(book, dig):
+    """Structural relation of two inequivalent gate lists (only used to key findings narrowly):
+    reordered = same multiset of gates (angles mod 4pi) in another order, angles = same gates, other angles,
+    structure = anything else."""
+    M, head, refs = book.payloads[dig]
+    a, b = json.loads(book.lists[refs["a"]][0]), json.loads(book.lists[refs["b"]][0])
+    def full(g):
+        return (g["name"], tuple(g["t"]), tuple(g["c"]), g["k"] % (2 * M))
+    def shape(g):
+        return (g["name"], tuple(g["t"]), tuple(g["c"]))
+    if sorted(map(full, a)) == sorted(map(full, b)):
+        return "reordered"
+    if list(map(shape, a)) == list(map(shape, b)):
+        return "angles"
+    return "structure"
+
+
+def process(chk, outs, verdicts, report=True, pools=None, book=None):
     """Turns events + TLC verdicts into violations / counters.  Returns per-family statistics."""
     fam = {}
     for out in outs:
@@ -1059,6 +1076,8 @@ def process(chk, outs, verdicts, report=True, pools=None):
                     chk.inconclusive += 1
                     continue
                 kind = {"equiv": "update-differs", "ref": "zero-not-reference", "refocc": "zero-not-reference", "same": "bad-changed-state"}[e["jkind"]]
+                if kind == "update-differs" and book is not None:
+                    kind += "/" + difference_tag(book, e["jkey"])
                 detail = {"equiv": "Sem(circuit after %s) != Sem(fresh object built with the same parameters)" % e.get("action"),
                           "ref": "all-zero parameters do not prepare the reference state",
                           "refocc": "all-zero parameters do not prepare the Hartree-Fock determinant (occupation from the molecule)",
@@ -1110,7 +1129,7 @@ def run(chk):
     for r in results:
         chk.add_tlc(r)
     t3 = time.time()
-    fam = process(chk, outs, verdicts, pools=pools)
+    fam = process(chk, outs, verdicts, pools=pools, book=book)
     # controls
     bfam = process(chk, [bout], verdicts, report=False)
     if bfam.get("control", {}).get("bad", 0) == 0:
